@@ -57,6 +57,9 @@ struct answer { long ret; int nact; struct action act[MAXACT]; };
 static struct answer hans[MAXANS]; static int nhans, hans_pos;
 static struct answer vans[MAXANS]; static int nvans, vans_pos;
 static int rd_ok, wr_ok; static long lk_ans, ul_ans;
+/* write answers per attempt within one service call: a string of 0/1, the last digit repeats */
+static char wr_pat[32] = "1"; static int wr_k;
+static void set_wr(const char *t) { snprintf(wr_pat, sizeof(wr_pat), "%s", (t[0] == '0' || t[0] == '1') ? t : "1"); wr_ok = wr_pat[0] == '1'; }
 static int quiet;   /* suppress events (query sampling) */
 static int uns_v_pending; /* the unsolicited machine will make the first variable read callback of this call */
 static int depth;   /* nesting depth of API calls (0 = outer) */
@@ -146,6 +149,7 @@ static void parse_answer(char *s, struct answer *a)
 
 static void before_service(void)
 {
+        wr_k = 0;
         uns_v_pending = obj.unsolicited_fsm.state == CAT_UNSOLICITED_STATE_FORMAT_READ_ARGS
                 && obj.unsolicited_fsm.var != NULL && obj.unsolicited_fsm.var->read != NULL;
 }
@@ -256,9 +260,12 @@ static void attribution(char *out)
 static int io_write(char ch)
 {
         char at[3];
+        int n = (int)strlen(wr_pat), ok;
         attribution(at);
-        ev("W:%02x:%d:%s", (unsigned)(uint8_t)ch, wr_ok, at);
-        return wr_ok ? 1 : 0;
+        ok = wr_pat[wr_k < n ? wr_k : n - 1] == '1';
+        wr_k++;
+        ev("W:%02x:%d:%s", (unsigned)(uint8_t)ch, ok, at);
+        return ok ? 1 : 0;
 }
 
 static int io_read(char *ch)
@@ -599,7 +606,7 @@ int main(void)
                 }
                 if (strcmp(tok[0], "svc") == 0) {
                         cat_status r;
-                        rd_ok = atoi(tok[1]); wr_ok = atoi(tok[2]);
+                        rd_ok = atoi(tok[1]); set_wr(tok[2]);
                         parse_opts(tok + 3, nt - 3);
                         before_service();
                         r = cat_service(&obj);
@@ -609,7 +616,7 @@ int main(void)
                 if (strcmp(tok[0], "drain") == 0) {
                         long max = strtol(tok[1], NULL, 10), k; cat_status r = CAT_STATUS_BUSY;
                         char *opts[64]; int no = nt - 4, i; char *copy[64];
-                        rd_ok = atoi(tok[2]); wr_ok = atoi(tok[3]);
+                        rd_ok = atoi(tok[2]); set_wr(tok[3]);
                         for (i = 0; i < no; i++) opts[i] = tok[4 + i];
                         for (k = 0; k < max && r != CAT_STATUS_OK; k++) {
                                 for (i = 0; i < no; i++) copy[i] = strdup(opts[i]);
